@@ -12,6 +12,7 @@ import (
 	"strings"
 
 	"package-operator.run/internal/packages/zzverif/checks"
+	"package-operator.run/internal/packages/zzverif/checks/twin"
 	"package-operator.run/internal/packages/zzverif/kmodel"
 	"package-operator.run/internal/packages/zzverif/osw"
 	"package-operator.run/internal/packages/zzverif/report"
@@ -419,6 +420,19 @@ func replay(v report.Violation) string {
 	return osw.ReplayBFS(system(sc), v)
 }
 
+// twinScenarios: status reporting of the cluster-scoped kinds in lockstep with the namespaced ones.
+func twinScenarios(quick bool) []twin.Scenario {
+	three := []string{"ready", "notready", "stale"}
+	out := []twin.Scenario{
+		{Kind: "chain", N: 2, Mask: 0, Classes: three, Users: 1},
+		{Kind: "chain", N: 2, Mask: 0b01, Classes: []string{"ready", "notready"}, Users: 1},
+	}
+	if !quick {
+		out = append(out, twin.Scenario{Kind: "chain", N: 3, Mask: 0b010, Classes: three, Users: 1}, twin.Scenario{Kind: "deployment", Classes: three, Edits: 1, Limit: -1})
+	}
+	return out
+}
+
 func init() {
 	checks.Register(&checks.Check{
 		ID:    "C06",
@@ -432,6 +446,7 @@ func init() {
 				return 16
 			}
 			return 11
-		}, Run: run, Replay: replay, Parallel: true}},
+		}, Run: run, Replay: replay, Parallel: true},
+			twin.Sub("C06", twinScenarios)},
 	})
 }
